@@ -1,5 +1,6 @@
 import Clikit.Drv.C01
 import Clikit.Model.Resolver
+import Clikit.Model.AliasCfg
 /-! Driver entries of the resolver model: `c03.resolve`, `c03.lead`, `c03.walk`, `c03.same`. -/
 namespace Clikit.Drv.C03
 open Lean Clikit.Drv Clikit.Parser Clikit.Resolver
@@ -15,8 +16,28 @@ partial def cmdOf (j : Json) : R Cmd := do
   let subs ← (← fArr j "subs").toList.mapM cmdOf
   return Cmd.mk name al d an f len subs
 
+/-- one configuration call: `["add", c, a]`, `["adds", c, [..]]`, `["set", c, [..]]`, `["new_list", k, [..]]`,
+`["set_list", c, k]`, `["adds_list", c, k]`, `["append_list", k, a]`, `["set_from", c, d]` -/
+def aliasOpOf (j : Json) : R AliasCfg.Op := do
+  match j with
+  | .arr #[.str "add", c, a] => return .add (← asNat c) (← asChars a)
+  | .arr #[.str "adds", c, .arr l] => return .adds (← asNat c) (← l.toList.mapM asChars)
+  | .arr #[.str "set", c, .arr l] => return .set (← asNat c) (← l.toList.mapM asChars)
+  | .arr #[.str "new_list", k, .arr l] => return .newList (← asNat k) (← l.toList.mapM asChars)
+  | .arr #[.str "set_list", c, k] => return .setList (← asNat c) (← asNat k)
+  | .arr #[.str "adds_list", c, k] => return .addsList (← asNat c) (← asNat k)
+  | .arr #[.str "append_list", k, a] => return .appendList (← asNat k) (← asChars a)
+  | .arr #[.str "set_from", c, d] => return .setFrom (← asNat c) (← asNat d)
+  | _ => .error "c03.aliases: malformed configuration call"
+
 def handle (m : String) (j : Json) : Option (R Json) :=
   match m with
+  | "c03.aliases" => some do
+      -- the aliases each of the `n` commands (numbered in configuration order) is configured with after the calls
+      let n ← fNat j "n"
+      let ops ← (← fArr j "ops").toList.mapM aliasOpOf
+      let s := AliasCfg.run AliasCfg.St.init ops
+      return jList (fun i => jStrs (s.cmds i)) (List.range n)
   | "c03.resolve" => some do
       let app ← (← fArr j "commands").toList.mapM cmdOf
       let toks ← (← fArr j "tokens").toList.mapM asChars
